@@ -15,7 +15,7 @@
 (* The page size only decides how much a loader maps around a segment; it   *)
 (* does not change what is inside [p_vaddr, p_vaddr + p_memsz).             *)
 (***************************************************************************)
-EXTENDS Elf
+EXTENDS Elf, ImageCheck
 
 Cap2(d) == IF FitsNat(d) THEN ToNat(d) ELSE 0
 SegMem(b, p) ==
@@ -91,37 +91,4 @@ AllSlots(b) == LET sh == ShdrsOf(b)  R == SetToSeq(RelSecs(sh)) IN
   SelectSeq(Flat(Tup([k \in 1..Len(R) |-> RelocsOf(b, sh, R[k])])), LAMBDA r : ~IsZeroD(r.a))
 Slots(b) == SelectSeq(AllSlots(b), LAMBDA r : r.sym # 0)
 
-(* ---- validating an observed memory image (T) --------------------------------------------------*)
-(* obs: one [va, cells] per segment of I, cells: one per byte (0..255 a byte, -1 unmapped, -2 some other expression,  *)
-(* -3 a byte of an external-symbol expression); exts: [seg, off, name, size] for every external    *)
-(* symbol found (seg 0-based, off relative to the segment start).  S: all relocation entries, aw the*)
-(* pointer size.  The verdict is "ok" or the first offending byte: a cell that differs from the    *)
-(* file's mapping is allowed only inside a slot, and only as the symbol that slot binds.           *)
-SlotOffs(seg, S) == {[o |-> ToNat(SubD(S[k].a, seg.va)), name |-> S[k].name, sym |-> S[k].sym] : k \in
-                       {k \in DOMAIN S : LeqD(seg.va, S[k].a) /\ FitsNat(SubD(S[k].a, seg.va)) /\ ToNat(SubD(S[k].a, seg.va)) < Len(seg.mem)}}
-BadCell(j, seg, cells, exts, SO, aw, i) ==        \* "" if cell i of segment j is acceptable
-  LET cover  == {s \in SO : s.sym # 0 /\ s.o < i /\ i <= s.o + aw}
-      cover0 == {s \in SO : s.sym = 0 /\ s.o < i /\ i <= s.o + aw} IN
-  IF cells[i] = seg.mem[i] THEN ""
-  ELSE IF cover # {} THEN
-         IF cells[i] = -3 /\ \E s \in cover : \E e \in DOMAIN exts :
-                exts[e].seg = j - 1 /\ exts[e].off = s.o /\ exts[e].name = s.name THEN ""
-         ELSE IF cells[i] = -3 THEN "SlotHoldsOtherSymbol" ELSE "SlotClobbered"
-  ELSE IF cells[i] = -3 /\ cover0 # {} THEN "ExternalSymbolAtRelocationWithoutSymbol"
-  ELSE IF cells[i] = -3 THEN "ExternalSymbolOutsideRelocationSlots"
-  ELSE IF i <= seg.fs THEN (IF cells[i] = -1 THEN "FileByteUnmapped" ELSE "FileByte")
-  ELSE (IF cells[i] = -1 THEN "BssUnmapped" ELSE "BssNotZero")
-SegVerdict(j, seg, cells, exts, S, aw) ==
-  IF Len(cells) # Len(seg.mem) THEN [clause |-> "Length", seg |-> j - 1, off |-> 0, got |-> Len(cells), want |-> Len(seg.mem)]
-  ELSE LET D  == {i \in 1..Len(cells) : cells[i] # seg.mem[i]}
-           SO == SlotOffs(seg, S)
-           B  == {i \in D : BadCell(j, seg, cells, exts, SO, aw, i) # ""}
-       IN IF B = {} THEN [clause |-> "ok", seg |-> j - 1, off |-> 0, got |-> 0, want |-> 0]
-          ELSE LET i == CHOOSE i \in B : \A k \in B : i <= k
-               IN [clause |-> BadCell(j, seg, cells, exts, SO, aw, i), seg |-> j - 1, off |-> i - 1, got |-> cells[i], want |-> seg.mem[i]]
-ImageVerdicts(I, obs, exts, S, aw) ==              \* one verdict per segment
-  IF Len(obs) # Len(I) THEN << [clause |-> "SegmentCount", seg |-> 0, off |-> 0, got |-> Len(obs), want |-> Len(I)] >>
-  ELSE Tup([j \in 1..Len(I) |->
-         IF ~EqD(obs[j].va, I[j].va) THEN [clause |-> "SegmentAddress", seg |-> j - 1, off |-> 0, got |-> 0, want |-> 0]
-         ELSE SegVerdict(j, I[j], obs[j].cells, exts, S, aw)])
 =============================================================================
